@@ -217,7 +217,7 @@ def record_r1(seed, count, nmax):
             continue
         rows = rows_of(outp)
         sc = det.scores.to_numpy()
-        out.append({"id": f"r1-{seed}-{i}", "regime": "R1", "entry": "MVCAPA", "n": n, "p": p, "m": m,
+        out.append({"id": f"r1-{seed}-{i}", "rec": "run", "regime": "R1", "entry": "MVCAPA", "n": n, "p": p, "m": m,
                     "mx": mx, "ca": ca, "cb": cb, "pa": pa, "pb": pb, "tol": 0, "ignore": ignore,
                     "S": [[[int(x) for x in S.get((s, e), [0] * p)] for e in range(1, n + 1)] for s in range(n)],
                     "scores": [int(round(float(x))) for x in sc], "rows": [list(r) for r in rows]})
@@ -311,7 +311,7 @@ def record_r3(seed, count, nmax):
         full = dict(S)
         for k, v in Spt.items():
             full[k] = v
-        out.append({"id": f"r3-{seed}-{i}", "regime": "R3", "entry": "CAPA" if use_capa else "MVCAPA",
+        out.append({"id": f"r3-{seed}-{i}", "rec": "run", "regime": "R3", "entry": "CAPA" if use_capa else "MVCAPA",
                     "saving": name, "family": fam, "n": n, "p": pp, "m": m, "mx": mx,
                     "ca": q(ca), "cb": [q(x) for x in cb], "pa": q(pa), "pb": [q(x) for x in pb],
                     "tol": 2 * n * (pp + 1) + 4, "unit": unit, "ignore": ignore,
